@@ -55,14 +55,17 @@ type stSess struct {
 	cur       int
 	backups   map[int]*stBackup
 	sw        *badger.StreamWriter
-	swPreList []string         // contents of the destination before the stream writer started
-	swData    []*pb.KV         // everything written through the stream writer
-	swOld     map[uint64]bool  // table ids present when the stream writer was prepared
-	pending   bool             // between stream-begin and stream-end
-	pendBegin []string         // the words of the stream-begin line
-	pendMid   []string         // the op lines to run at the mid-run point
-	f20       map[*mvSess]bool // a level-jumping compaction already changed a read of this DB
-	lastKVs   [][]*pb.KV       // output of the last stream op, one list per range
+	swPreList []string           // contents of the destination before the stream writer started
+	swData    []*pb.KV           // everything written through the stream writer
+	swOld     map[uint64]bool    // table ids present when the stream writer was prepared
+	maxIssued map[*mvSess]uint64 // highest commit timestamp handed out so far
+	tsReuse   map[*mvSess]bool   // a re-open set nextTxnTs at or below a timestamp already used
+	lastSince uint64             // `since` of the most recent backup op
+	pending   bool               // between stream-begin and stream-end
+	pendBegin []string           // the words of the stream-begin line
+	pendMid   []string           // the op lines to run at the mid-run point
+	f20       map[*mvSess]bool   // a level-jumping compaction already changed a read of this DB
+	lastKVs   [][]*pb.KV         // output of the last stream op, one list per range
 	st        *Stats
 }
 
@@ -288,6 +291,15 @@ func (s *stSess) basicOp(w []string, line string, emit func(string, string), fai
 		mv.judgeStructure(fail)
 	case "compact", "compact-none":
 		s.compactOp(mv, kvWords(w[1:]), emit, fail)
+	case "dropall":
+		for _, t := range mv.txns {
+			if !t.done {
+				t.t.Discard()
+				t.done = true
+			}
+		}
+		badger.VerifSyncMarks(mv.db)
+		mv.dropAll(emit, fail)
 	case "dump":
 		// dumps are emitted automatically after structural ops
 	default:
@@ -360,6 +372,12 @@ func (s *stSess) commitTxn(mv *mvSess, tx *mvTxn, cts uint64) string {
 			sv := tx.pending[k]
 			sv.ver = ts
 			mv.spec.add([]byte(k), sv)
+		}
+		if s.maxIssued == nil {
+			s.maxIssued = map[*mvSess]uint64{}
+		}
+		if ts > s.maxIssued[mv] {
+			s.maxIssued[mv] = ts
 		}
 		return fmt.Sprintf("ok %d", ts)
 	case err == nil:
@@ -963,6 +981,7 @@ func (s *stSess) doBackup(w []string, line string, emit func(string, string), fa
 		}
 	}
 	since := uint64(kvInt(kv, "since", 0))
+	s.lastSince = since
 	sinceTs := since
 	if v, ok := kv["sincets"]; ok {
 		sinceTs = atou(v)
@@ -1131,7 +1150,14 @@ func (s *stSess) doCmpRestore(w []string, line string, emit func(string, string)
 			a, b := src.mv.readAt([]byte(k), ts), dst.mv.readAt([]byte(k), ts)
 			cnt++
 			if a != b {
-				fail("C24-restored-read", fmt.Sprintf("key %s at ts=%d: source reads %q, restored DB reads %q", hx([]byte(k)), ts, a, b))
+				var av uint64
+				fmt.Sscanf(a, "%d:", &av)
+				if final && s.tsReuse[src.mv] {
+					fail("F29:reopen-reuses-timestamps-backup-since", fmt.Sprintf("key %s at ts=%d: the source serves %q (version %d), the restored chain reads %q; after the newest commits' entries were dropped a re-open of the source handed out commit timestamps again that earlier backups of this chain (last `since` %d) had already covered",
+						hx([]byte(k)), ts, a, av, b, s.lastSince))
+				} else {
+					fail("C24-restored-read", fmt.Sprintf("key %s at ts=%d: source reads %q, restored DB reads %q", hx([]byte(k)), ts, a, b))
+				}
 				return
 			}
 		}
@@ -1145,13 +1171,20 @@ func (s *stSess) doCmpRestore(w []string, line string, emit func(string, string)
 			if _, ok := snap[k]; ok {
 				continue
 			}
+			if src.mv.droppedAll {
+				// DropAll is not a write: no backup can carry it (outside C24's statement)
+				s.st.Inc("cmp-restore:key-dropped-by-dropall")
+				continue
+			}
 			a, b := src.mv.readAt([]byte(k), math.MaxUint64), dst.mv.readAt([]byte(k), math.MaxUint64)
 			if a == b {
 				continue
 			}
 			// the source's history: was the newest write to k a delete / an expired entry that
 			// compaction has since removed together with everything below it?
-			if nv, ok := src.mv.spec.newest([]byte(k), math.MaxUint64, 0); ok && nv.dead(src.mv.now) && a == "absent" && src.mv.spec.compacted {
+			if s.tsReuse[src.mv] {
+				fail("F29:reopen-reuses-timestamps-backup-since", fmt.Sprintf("key %s at ts=max: the source serves %q, the restored chain reads %q; a re-open of the source handed out commit timestamps again that earlier backups of this chain had already covered", hx([]byte(k)), a, b))
+			} else if nv, ok := src.mv.spec.newest([]byte(k), math.MaxUint64, 0); ok && nv.dead(src.mv.now) && a == "absent" && src.mv.spec.compacted {
 				fail("F19:incremental-backup-lost-tombstone", fmt.Sprintf("key %s: the source deleted/expired it at version %d and a compaction dropped that marker before the next incremental backup ran; source reads %q, restored chain reads %q",
 					hx([]byte(k)), nv.ver, a, b))
 			} else {
@@ -1249,6 +1282,33 @@ func (s *stSess) doReopen(line string, emit func(string, string), fail func(stri
 		}
 	}
 	emit(fmt.Sprintf("reopen id=%d", newID), fmt.Sprintf("ok next=%d", next))
+	if !mv.managed && next <= s.maxIssued[mv] {
+		// Open derives nextTxnTs from the stored entries only: the newest commits left nothing
+		if s.tsReuse == nil {
+			s.tsReuse = map[*mvSess]bool{}
+		}
+		s.tsReuse[mv] = true
+		s.st.Inc("reopen:timestamps-reused")
+		// the history oracle assumes commit timestamps grow: restart it from what is stored
+		mv.spec = newSpec()
+		mv.spec.compacted = true
+		add := func(e badger.VEntry) {
+			mv.spec.add(e.Key, specVer{ver: e.Version, del: e.Meta&1 != 0, discard: e.Meta&4 != 0, userMeta: e.UserMeta, exp: e.ExpiresAt, val: e.Value})
+		}
+		lv := badger.VerifLevels(mv.db)
+		for i := len(lv) - 1; i >= 0; i-- {
+			for _, t := range lv[i] {
+				for _, e := range t.Entries {
+					add(e)
+				}
+			}
+		}
+		for _, m := range badger.VerifMemEntries(mv.db) {
+			for _, e := range m {
+				add(e)
+			}
+		}
+	}
 	emit("dump", mv.dump())
 	after := allEntries(mv.db)
 	if strings.Join(before, " ") != strings.Join(after, " ") {
@@ -2010,6 +2070,29 @@ func (g *stGen) genBackup() {
 	chain := g.rng.Intn(3)
 	for i := 1; i <= chain; i++ {
 		g.add("use 0")
+		switch g.rng.Intn(8) {
+		case 0, 1:
+			// everything is dropped, the DB is closed and re-opened, then written again
+			g.add("dropall")
+			g.add("reopen")
+		case 2:
+			// every key deleted, the markers compacted away (when nothing below overlaps), re-open
+			id := g.nextID
+			g.nextID++
+			g.add("begin %d 1 %d", id, g.rts())
+			for _, k := range g.keys {
+				g.add("set %d %s 1 0 0 - 0", id, hx(k))
+			}
+			g.add("commit %d %d", id, g.commitTs())
+			rid := g.nextID
+			g.nextID++
+			g.add("begin %d 0 %d", rid, g.rts())
+			g.add("discard %d", rid)
+			g.add("flush")
+			g.add("compact this=0 id=0 adj=1.5")
+			g.add("compact pick=1 id=0 adj=1.5")
+			g.add("reopen")
+		}
 		g.build(1 + g.rng.Intn(4))
 		if g.rng.Intn(6) == 0 {
 			// Stream.Backup on a stream whose SinceTs differs from `since` (model comparison only)
